@@ -284,9 +284,13 @@ func cmdCheck(args []string) int {
 			hard++
 			fmt.Printf("ERROR %s: %s\n", r.Config, e)
 		}
-		if nOb < prop.Meta.MinObl && len(r.Errors) == 0 {
+		floor := prop.Meta.MinObl
+		if primaryOS := strings.SplitN(prop.Configs("quick")[0].String(), "/", 2)[0]; !strings.HasPrefix(r.Config, primaryOS+"/") {
+			floor = 1 // the floor was confirmed by hand for the property's primary backend
+		}
+		if nOb < floor && len(r.Errors) == 0 {
 			hard++
-			fmt.Printf("ERROR %s: only %d obligations were generated, the floor confirmed by hand is %d (a rule matched nothing: vacuous)\n", r.Config, nOb, prop.Meta.MinObl)
+			fmt.Printf("ERROR %s: only %d obligations were generated, the floor confirmed by hand is %d (a rule matched nothing: vacuous)\n", r.Config, nOb, floor)
 		}
 	}
 	if replayOb != nil {
